@@ -32,7 +32,7 @@ RULE = (
     "config; distinct = (n, nest, shape class, verdict) resp. (task, edit kinds, verdict)"
 )
 ASSUMPTIONS = ["bool is not generated as a threshold entry", "a flat list whose length equals the number of labels may be read per label or per threshold (both normal forms accepted)"]
-DECIDING = ["set_thresholds.checked", "C15.threshold_specs", "C15.threshold_rejected", "C15.threshold_accepted", "C15.idempotence_checked", "C15.configs_accepted", "C15.configs_rejected", "C15.must_reject_checked", "C15.exposed_lists_checked", "C15.reuse_checked"]
+DECIDING = ["set_thresholds.checked", "C15.threshold_specs", "C15.threshold_rejected", "C15.threshold_accepted", "C15.idempotence_checked", "C15.configs_accepted", "C15.configs_rejected", "C15.must_reject_checked", "C15.exposed_lists_checked", "C15.reuse_checked", "C15.valid_frame_configs_checked"]
 JOBS = {"quick": 2, "thorough": 8}
 
 
@@ -412,7 +412,8 @@ def drive_configs(ctx: Ctx) -> None:
         r = ctx.rng("frame_configs", i)
         labels = r.sample(["car", "bicycle", "pedestrian", "truck", "bus"], r.randint(1, 4))
         n = len(labels)
-        pick = lambda: r.choice([[1.0] * n, [1.0] * (n + 1), [1.0], [], 2.0, ["a"] * n, None, [[1.0] * n]])  # noqa: E731
+        all_valid = r.random() < 0.4  # every per-label list holds exactly one number per target label of THIS config
+        pick = (lambda: [round(r.uniform(1.0, 90.0), 1) for _ in range(n)]) if all_valid else (lambda: r.choice([[1.0] * n, [1.0] * (n + 1), [1.0], [], 2.0, ["a"] * n, None, [[1.0] * n]]))  # noqa: E731
         kw = dict(target_labels=labels, max_x_position_list=pick(), max_y_position_list=pick(), max_distance_list=pick() if r.random() < 0.3 else None, min_distance_list=pick() if r.random() < 0.3 else None, min_point_numbers=pick(), confidence_threshold_list=pick())
         ctx.begin_case("frame_configs", i, kw=jsonable(kw))
         try:
@@ -422,10 +423,16 @@ def drive_configs(ctx: Ctx) -> None:
                 v = getattr(c, k)
                 if v is not None:
                     ctx.check(isinstance(v, list) and len(v) == len(c.target_labels) and all(is_num(x) for x in v), "C15/accepted_config_exposes_malformed_per_label_list", dict(cls="CriticalObjectFilterConfig", key=k, value=jsonable(v), n_labels=n), "config")
-            ctx.case(("critical", "accepted"), nontrivial=True)
-        except Exception:
+            if all_valid:
+                ctx.count("C15.valid_frame_configs_checked")
+                ctx.check(all(getattr(c, k) == kw[k] for k in ("max_x_position_list", "max_y_position_list", "min_point_numbers", "confidence_threshold_list")), "C15/accepted_config_exposes_other_values_than_given", dict(cls="CriticalObjectFilterConfig", n_labels=n, n_evaluator_labels=len(ecfg.target_labels)), "config")
+            ctx.case(("critical", "accepted", n == len(ecfg.target_labels)), nontrivial=True)
+        except Exception as e:
             ctx.count("C15.configs_rejected")
-            ctx.case(("critical", "rejected"), nontrivial=True)
+            if all_valid:
+                ctx.count("C15.valid_frame_configs_checked")
+                ctx.violation("C15/valid_frame_config_rejected", dict(cls="CriticalObjectFilterConfig", kw=jsonable(kw), n_labels=n, n_evaluator_labels=len(ecfg.target_labels), error=f"{type(e).__name__}: {str(e)[:120]}"), tap="config")
+            ctx.case(("critical", "rejected", n == len(ecfg.target_labels)), nontrivial=True)
         kw2 = dict(target_labels=labels, matching_threshold_list=pick(), confidence_threshold_list=pick())
         try:
             c2 = PerceptionPassFailConfig(evaluator_config=ecfg, **kw2)
@@ -433,8 +440,9 @@ def drive_configs(ctx: Ctx) -> None:
                 v = getattr(c2, k)
                 if v is not None:
                     ctx.check(isinstance(v, list) and len(v) == len(c2.target_labels) and all(is_num(x) for x in v), "C15/accepted_config_exposes_malformed_per_label_list", dict(cls="PerceptionPassFailConfig", key=k, value=jsonable(v), n_labels=n), "config")
-        except Exception:
-            pass
+        except Exception as e:
+            if all_valid:
+                ctx.violation("C15/valid_frame_config_rejected", dict(cls="PerceptionPassFailConfig", kw=jsonable(kw2), n_labels=n, n_evaluator_labels=len(ecfg.target_labels), error=f"{type(e).__name__}: {str(e)[:120]}"), tap="config")
 
 
 def outcome_thr(spec: Any, n: int, nest: bool) -> Tuple[str, Any]:
